@@ -224,4 +224,16 @@ theorem parseHead_length (b : Bytes) (h : Head) (r : Bytes) (hp : parseHead b = 
         split at hp
         · cases hp; omega
         · cases hp
+
+/-- the strict splitter is an incremental scanner -/
+theorem strictLawful : @LawfulHeadParser strictParser :=
+  @LawfulHeadParser.mk strictParser
+    rfl
+    parseHead_append
+    parseHead_bad_append
+    (fun b h r hp => by have := parseHead_length b h r hp; omega)
+    (fun b e fs r h => takeFields_append _ _ b e fs r h (by simp))
+    (fun b e h => takeFields_bad_append _ _ b e h (by simp))
+    (fun b fs r h => by have := takeFields_length _ b fs r h; omega)
+
 end Mhd.Framing
